@@ -49,6 +49,16 @@ trim(w)
 uppercase(w)
 cast(n, "str")
 replace(w, "[B-Z]+", "y")
+if n == "7" {
+  add_key(br, 1)
+} elif n == "12" {
+  add_key(br, 2)
+} elif ok {
+  add_key(br, 3)
+} else {
+  add_key(br, 4)
+}
+if f == 0 { add_key(br5, 0) } elif f == 2 { add_key(br5, 2) } elif f == 3 { add_key(br5, 3) } elif f == 4 { add_key(br5, 4) } elif f == 1 { add_key(br5, 5) } else { add_key(br5, 6) }
 strfmt(sf, "%s-%v", w, n)
 sql_cover(q)
 if ok {
